@@ -53,6 +53,8 @@ def run():
     for doc, opts, label in inputs:
         group = results[k:k + len(seeds)]
         k += len(seeds)
+        if any([clirun.watchdog(g, r, label) for g in group]):
+            continue
         if any(g.rc != 0 for g in group):
             bad = next(g for g in group if g.rc != 0)
             r.witness("CLI run failed (rc=%s) in the determinism batch" % bad.rc, {"doc": label, "stderr": bad.stderr_tail[-400:]})
